@@ -237,6 +237,12 @@ def pointArray (cvt : Nat → Nat) (F : WFields) : WArr :=
 def cellsArray (hasCells : Bool) (name dt : String) (items : List Nat) : Option DataArr :=
   makeDataArray name (if hasCells then ⟨dt, items.length, [], items⟩ else ⟨"uint64", 0, [], []⟩) (some 1)
 
+/-- one `<CellData>` element: the values gathered over the mesh's cell types, written as one array -/
+def cellDataArray (F : WFields) (n : String) : Option DataArr :=
+  match cellFieldValues F n with
+  | none => none
+  | some v => makeDataArray n v none
+
 /-- `VTUWriter.write` (the element tree, not its serialisation).  `cvt` see `make3d`.
     Cell-data elements are listed in first-occurrence order of their names (the code iterates a
     Python `set`: the order in the file is arbitrary, the reader keys them by name). -/
@@ -245,9 +251,7 @@ def writeVtu (cvt : Nat → Nat) (F : WFields) : Option VtuFile :=
   let cs := allCells F.cells
   let hasCells := !cs.isEmpty
   match mapM' (fun (f : String × WArr) => makeDataArray f.1 f.2 none) F.pf,
-        mapM' (fun n => match cellFieldValues F n with
-                        | none => none
-                        | some v => makeDataArray n v none) names,
+        mapM' (cellDataArray F) names,
         makeDataArray "Coordinates" (pointArray cvt F) none,
         cellsArray hasCells "connectivity" F.conntype (cs.flatMap (·.2)),
         cellsArray hasCells "offsets" "int64" (runningSums 0 (cs.map (·.2.length))),
@@ -313,34 +317,51 @@ def rowsOf (ncomps : Nat) (items : List Nat) : Option Nat :=
   if ncomps ≤ 1 then some items.length
   else if items.length % ncomps = 0 then some (items.length / ncomps) else none   -- reshape ValueError
 
-def readVtu (f : VtuFile) : Option RFields := do
-  let (pdt, pts) ← readItems f.points
-  let (_, conn) ← readItems f.conn
-  let (_, offsets) ← readItems f.offsets
-  let (_, types) ← readItems f.types
-  if pts.length ≠ f.numPoints * 3 then none else
-  if offsets.length ≠ f.numCells then none else
-  if types.length ≠ f.numCells then none else
-  let uts := uniqueTypes types
-  let cells ← mapM' (fun t => do
-      let nm ← cellTypeName t
-      let rows ← cornersOf conn offsets types t
-      some (nm, rows)) uts
-  let numPoints := pts.length / 3
-  let pf ← mapM' (fun (e : DataArr) => do
-      let (dt, items) ← readItems e
-      let n ← rowsOf e.ncomps items
-      if n ≠ numPoints then none else some (RField.mk e.name dt e.ncomps items)) f.pointData
-  let numCells := (cells.map (·.2.length)).foldr (· + ·) 0
-  let cf ← mapM' (fun (e : DataArr) => do
-      let (dt, items) ← readItems e
-      let _ ← rowsOf e.ncomps items
+/-- one cell type of the read mesh: its name and its corner array (`None` = KeyError / IndexError) -/
+def readCellBlock (conn offsets types : List Nat) (t : Nat) : Option (String × List (List Nat)) :=
+  match cellTypeName t, cornersOf conn offsets types t with
+  | some nm, some rows => some (nm, rows)
+  | _, _ => none
+
+/-- one `<PointData>` array: flat items, reshaped; its number of rows must be the number of points -/
+def readPointField (numPoints : Nat) (e : DataArr) : Option RField :=
+  match readItems e with
+  | none => none
+  | some (dt, items) =>
+    match rowsOf e.ncomps items with
+    | none => none
+    | some n => if n ≠ numPoints then none else some (RField.mk e.name dt e.ncomps items)
+
+/-- one `<CellData>` array: flat items, reshaped, split per cell type (`entire[index_map[t]]`, types in
+    `np.unique` order); the per-type row counts must add up to the number of cells -/
+def readCellField (types uts : List Nat) (numCells : Nat) (e : DataArr) : Option RCellField :=
+  match readItems e with
+  | none => none
+  | some (dt, items) =>
+    match rowsOf e.ncomps items with
+    | none => none
+    | some _ =>
       let k := if e.ncomps ≤ 1 then 1 else e.ncomps
-      let per ← mapM' (fun t => do
-          let nm ← cellTypeName t
-          some (nm, gatherRows k items (typeIndices types t))) uts
-      if (per.map fun p => p.2.length / k).foldr (· + ·) 0 ≠ numCells then none
-      else some (RCellField.mk e.name dt e.ncomps per)) f.cellData
-  some ⟨pdt, pts, cells, pf, cf⟩
+      match mapM' (fun t => (cellTypeName t).map fun nm => (nm, gatherRows k items (typeIndices types t))) uts with
+      | none => none
+      | some per =>
+        if (per.map fun p => p.2.length / k).foldr (· + ·) 0 ≠ numCells then none
+        else some (RCellField.mk e.name dt e.ncomps per)
+
+def readVtu (f : VtuFile) : Option RFields :=
+  match readItems f.points, readItems f.conn, readItems f.offsets, readItems f.types with
+  | some (pdt, pts), some (_, conn), some (_, offsets), some (_, types) =>
+    if pts.length ≠ f.numPoints * 3 then none else
+    if offsets.length ≠ f.numCells then none else
+    if types.length ≠ f.numCells then none else
+    let uts := uniqueTypes types
+    match mapM' (readCellBlock conn offsets types) uts with
+    | none => none
+    | some cells =>
+      match mapM' (readPointField (pts.length / 3)) f.pointData,
+            mapM' (readCellField types uts ((cells.map (·.2.length)).foldr (· + ·) 0)) f.cellData with
+      | some pf, some cf => some ⟨pdt, pts, cells, pf, cf⟩
+      | _, _ => none
+  | _, _, _, _ => none
 
 end Fc.W
